@@ -213,6 +213,32 @@ func c17History(c *ctx, t typeSpec, ops []setOp, how string) {
 			key, detail = "new-panics", fmt.Sprint(pv)
 		}
 	}
+	// the same for a soft resource over a type that BuildType made (it carries a constructor
+	// for the struct) and that was renamed and extended since
+	if key == "" && tagSafeSpec(t) {
+		p, pv := guard(func() {
+			ty, err := jsonapi.BuildType(reflect.New(t.structType()).Interface())
+			if err != nil {
+				return
+			}
+			ty = ty.Copy()
+			ty.Name = "renamed"
+			_ = ty.AddAttr(jsonapi.Attr{Name: "added-since", Type: jsonapi.AttrTypeInt})
+			src := &jsonapi.SoftResource{Type: &ty}
+			for _, o := range ops {
+				src.Set(o.key, o.val)
+			}
+			fresh := src.New()
+			if fresh.GetType().Name != "renamed" || oStruct(fresh) != oStruct(src) {
+				key, detail = "new-resource-other-type", fmt.Sprintf("soft resource over an edited struct-built type: New() is of type %q with %d attributes", fresh.GetType().Name, len(fresh.Attrs()))
+			} else if fresh.Get("id") != "" || fresh.Get("added-since") != 0 {
+				key, detail = "new-resource-not-zero", "soft resource over an edited struct-built type"
+			}
+		})
+		if p && key == "" {
+			key, detail = "new-panics", fmt.Sprint(pv)
+		}
+	}
 	nnil := 0
 	for _, o := range ops {
 		if o.val == nil {
